@@ -393,3 +393,129 @@ func VerifC06_SpotToSpotSingleNode() {
 		}
 	}
 }
+
+// Reserved offerings: an exhausted (unavailable) reserved offering must not make an instance type look cheap when it
+// can only be launched from a dearer available offering.
+func VerifC06_DecisionWithReservedOfferings() {
+	const resLabel = "karpenter.test.sh/reservation-id"
+	v1.WellKnownLabels = v1.WellKnownLabels.Insert(resLabel)
+	cloudprovider.ReservationIDLabel = resLabel
+	cloudprovider.ReservedCapacityLabels.Insert(resLabel)
+
+	ctx := opopts.ToContext(context.Background(), &opopts.Options{IgnoreDRARequests: true, MinValuesPolicy: opopts.MinValuesPolicyStrict,
+		FeatureGates: opopts.FeatureGates{ReservedCapacity: true}})
+	now := time.Unix(1700000000, 0)
+	clk := &stubs.Clock{Frozen: true}
+	clk.Set(now)
+	kc := &stubs.Client{Clock: clk}
+	cp := stubs.ManagedProvider()
+	cluster := state.NewCluster(clk, kc, cp)
+	rec := &stubs.Recorder{}
+
+	mk := func(name string, cpu int64, reserved bool) *kType {
+		t := &kType{cpu: cpu}
+		cts := []string{v1.CapacityTypeOnDemand}
+		if reserved {
+			cts = append(cts, v1.CapacityTypeReserved)
+		}
+		var ofs cloudprovider.Offerings
+		reqs := scheduling.NewRequirements(
+			scheduling.NewRequirement(corev1.LabelInstanceTypeStable, corev1.NodeSelectorOpIn, name),
+			scheduling.NewRequirement(corev1.LabelTopologyZone, corev1.NodeSelectorOpIn, "zone-1"),
+			scheduling.NewRequirement(v1.CapacityTypeLabelKey, corev1.NodeSelectorOpIn, cts...),
+			scheduling.NewRequirement(corev1.LabelArchStable, corev1.NodeSelectorOpIn, "amd64"),
+			scheduling.NewRequirement(corev1.LabelOSStable, corev1.NodeSelectorOpIn, "linux"),
+		)
+		for _, ct := range cts {
+			o := kOffer{ct: ct, price: float64(verifrt.IntRange(name+"."+ct+".price", 1, 1<<20)) / 1024, available: true}
+			oreqs := scheduling.NewRequirements(
+				scheduling.NewRequirement(corev1.LabelTopologyZone, corev1.NodeSelectorOpIn, "zone-1"),
+				scheduling.NewRequirement(v1.CapacityTypeLabelKey, corev1.NodeSelectorOpIn, ct),
+			)
+			capacity := 0
+			if ct == v1.CapacityTypeReserved {
+				// an exhausted reservation is listed as unavailable with no capacity left
+				o.available = verifrt.Bool(name + ".reserved.available")
+				if o.available {
+					capacity = 1
+				}
+				oreqs.Add(scheduling.NewRequirement(resLabel, corev1.NodeSelectorOpIn, "r-"+name))
+				reqs.Add(scheduling.NewRequirement(resLabel, corev1.NodeSelectorOpIn, "r-"+name))
+			}
+			t.offers = append(t.offers, o)
+			ofs = append(ofs, &cloudprovider.Offering{Available: o.available, Price: o.price, ReservationCapacity: capacity, Requirements: oreqs})
+		}
+		t.it = &cloudprovider.InstanceType{Name: name, Requirements: reqs, Offerings: ofs,
+			Capacity: corev1.ResourceList{corev1.ResourceCPU: *resource.NewQuantity(cpu, resource.DecimalSI), corev1.ResourceMemory: resource.MustParse("8Gi"), corev1.ResourcePods: resource.MustParse("110")},
+			Overhead: &cloudprovider.InstanceTypeOverhead{}}
+		return t
+	}
+	types := []*kType{mk("it-s", 4, true), mk("it-l", 8, false)}
+	itMap := map[string]*cloudprovider.InstanceType{}
+	for _, t := range types {
+		cp.InstanceTypes = append(cp.InstanceTypes, t.it)
+		itMap[t.it.Name] = t.it
+	}
+	pool := &v1.NodePool{}
+	pool.Name, pool.UID = "pool-1", "uid-pool-1"
+	pool.Spec.Template.Spec.NodeClassRef = &v1.NodeClassReference{Group: stubs.NodeClassGroup, Kind: stubs.NodeClassKind, Name: "default"}
+	d := 30 * time.Second
+	pool.Spec.Disruption.ConsolidateAfter = v1.NillableDuration{Duration: &d}
+	pool.Spec.Disruption.ConsolidationPolicy = v1.ConsolidationPolicyWhenEmptyOrUnderutilized
+	pool.Spec.Template.Spec.Requirements = []v1.NodeSelectorRequirementWithMinValues{{Key: v1.CapacityTypeLabelKey, Operator: corev1.NodeSelectorOpIn, Values: []string{v1.CapacityTypeOnDemand, v1.CapacityTypeReserved}}}
+	pool.StatusConditions().SetTrue(status.ConditionReady)
+	kc.Pools = append(kc.Pools, pool)
+
+	alloc := corev1.ResourceList{corev1.ResourceCPU: resource.MustParse("8"), corev1.ResourceMemory: resource.MustParse("8Gi"), corev1.ResourcePods: resource.MustParse("110")}
+	node1, nc1 := kNode("node-1", "verif://i-1", "it-l", v1.CapacityTypeOnDemand, alloc)
+	stubs.SetCondition(nc1, v1.ConditionTypeInitialized, metav1.ConditionTrue, now.Add(-time.Hour))
+	stubs.SetCondition(nc1, v1.ConditionTypeConsolidatable, metav1.ConditionTrue, now.Add(-time.Minute))
+	kc.Claims = append(kc.Claims, nc1)
+	kc.Nodes = append(kc.Nodes, node1)
+	cluster.UpdateNodeClaim(nc1)
+	verifrt.Assert(cluster.UpdateNode(ctx, node1) == nil, "the node is accepted by cluster state")
+	p := &corev1.Pod{}
+	p.Name, p.Namespace, p.UID = "pod-1", "default", "uid-pod-1"
+	p.Spec.NodeName = node1.Name
+	p.Status.Phase = corev1.PodRunning
+	p.Status.Conditions = []corev1.PodCondition{{Type: corev1.PodScheduled, Status: corev1.ConditionTrue}}
+	p.OwnerReferences = []metav1.OwnerReference{{APIVersion: "apps/v1", Kind: "ReplicaSet", Name: "rs"}}
+	p.Spec.Containers = []corev1.Container{{Name: "main", Resources: corev1.ResourceRequirements{Requests: corev1.ResourceList{corev1.ResourceCPU: verifrt.MilliQuantity("pod.cpu", 1, 8000)}}}}
+	kc.Pods = append(kc.Pods, p)
+	verifrt.Assert(cluster.UpdatePod(ctx, p) == nil, "the pod is accepted by cluster state")
+
+	prov := provisioning.NewProvisioner(kc, rec, cp, cluster, clk, nil, nil)
+	queue := NewQueue(kc, rec, cluster, clk, prov)
+	c := MakeConsolidation(clk, cluster, kc, prov, cp, rec, queue)
+	limits, err := pdb.NewLimits(ctx, kc)
+	verifrt.Assert(err == nil, "PDB limits are built")
+	var sn *state.StateNode
+	for n := range cluster.Nodes() {
+		sn = n
+	}
+	cand, cerr := NewCandidate(ctx, kc, rec, clk, sn, limits, map[string]*v1.NodePool{"pool-1": pool}, map[string]map[string]*cloudprovider.InstanceType{"pool-1": itMap}, queue, GracefulDisruptionClass)
+	if cerr != nil {
+		return
+	}
+	cmd, err := c.computeConsolidation(ctx, cand)
+	if err != nil || cmd.Decision() == NoOpDecision {
+		return
+	}
+	verifrt.Reach("command")
+	for _, r := range cmd.Replacements {
+		verifrt.Reach("replacement")
+		ctr := r.NodeClaim.Requirements.Get(v1.CapacityTypeLabelKey)
+		for _, it := range r.NodeClaim.InstanceTypeOptions {
+			for _, t := range types {
+				if t.it != it {
+					continue
+				}
+				for _, o := range t.offers {
+					if ctr.Has(o.ct) {
+						verifrt.Assert(!o.available || o.price < cand.Price, "every available offering the replacement may be launched into is strictly cheaper than the node it replaces (an exhausted reservation does not count)")
+					}
+				}
+			}
+		}
+	}
+}
